@@ -1,5 +1,5 @@
 # Table consumed by gen_manifest.py (exec'd).  One chk(...) per claimed property.
-HOOK_COMMITS = ["274ee918"]
+HOOK_COMMITS = ["274ee918", "1925d4ab", "3680c81b"]
 
 chk("C09", "algebraic-law monitor on the real issuance functions (additivity, totals) over an exhaustive boundary grid + seeded random triples",
     "Runs the real CalcUnbindOng/CalcGovernanceUnbindOng on every triple of a ~70-point boundary grid per network id (interval edges, both deadlines ±2, 0, 2^32-1) and on seeded random triples, asserting F(s,e)=F(s,m)+F(m,e), F(s,s)=0, and holder+governance totals = ONG supply, also through random piecewise settlements. Exploration: the grid is exhaustive over the listed boundaries, the rest is sampled.",
@@ -20,3 +20,11 @@ chk("C40", "cross-query consistency monitor over committed block bytes, across c
 chk("C42", "state-fingerprint and on-disk-dump invariance monitor around every read-only entry point + differential against a reference ledger that never pre-executed",
     "Hundreds of seeded pre-execution requests that would write (token transfers with fee, storage put/delete, approve, deploy, contract destroy, notify, EVM transfer and create+SSTORE+LOG) go through PreExecuteContract, PreExecuteContractBatch(atomic t/f), PreExecuteEIP155, PreExecuteEip155Tx and TraceEip155Tx; API-level fingerprint after requests, byte dump of every store directory and a probe block's execution per batch must be unchanged; the ledger then commits further blocks in lock-step with a reference ledger; a concurrent variant races pre-executions with commits (race detector in thorough).",
     "WASM pre-execution not driven (JIT unavailable in this sandbox)")
+
+chk("C02", "3-way differential between real ledgers: validating consensus node vs byte-decoding syncing node vs separate-process restarted node, plus repeated execution",
+    "Seeded block sequences (token transfers incl. failing ones, contract storage, EVM transfers, deploy) each carrying a transfer authorised by one signer variant - every supported key type incl. Ethereum-type keys, alternative accepted encodings of a P-256 key, PUSHDATA1 form, multisig canonical / reversed key order / with an Ethereum-type member - are validated+executed on node A, decoded from bytes and AddBlock'ed on node B and on node C in a child process (fresh map seeds, restarts); per block the full state dump hash, state root, block root and event notifies must agree; each block is executed 3x on A.",
+    "same binary/arch on all nodes; WASM not driven")
+
+chk("C05", "per-transaction write-set monitor on the real block executor (ExecuteBlock of single-tx blocks on committed states) against the fee-only rule",
+    "1500/40000 generated invoke transactions (random bytes; scripts that write storage, notify, transfer ONG and then THROW/fault/loop; drain their payer so the fee is unpayable; native calls with random arguments; unauthorised and over-balance transfers; successes) x gas price {0,1,500,2500,random} x gas limits around minimum/code-length gas x 13 graded payer balances. For FAIL: changed keys must be only payer/governance ONG balance, fee conserved, 0<=fee<=balance, GasConsumed=fee, only the fee event; for charged successes GasConsumed = ONG reaching governance.",
+    "invoke transactions only (deploy/EIP-155 are chain furniture); WASM invokes not driven")
